@@ -314,8 +314,18 @@ def _z4(ctx, R, scan, loops, yields, fors):
     # ---- Z4 ----------------------------------------------------------------------
     ctx.rule("Z4", "the token stream is consumed lazily")
     it = fors[0].iter
+    lazy_local = False
+    if isinstance(it, ast.Name):
+        # a local that holds the generator itself (kept so that it can be closed in a finally clause): every binding of the name
+        # is the scan call or None
+        defs = [a for a in walk_no_nested(R.parse.node) if isinstance(a, (ast.Assign, ast.AnnAssign)) and a.value is not None and any(
+            isinstance(t, ast.Name) and t.id == it.id for t in (a.targets if isinstance(a, ast.Assign) else [a.target]))]
+        lazy_local = bool(defs) and all((isinstance(a.value, ast.Call) and call_name(a.value) == "scan") or (
+            isinstance(a.value, ast.Constant) and a.value.value is None) for a in defs) and any(isinstance(a.value, ast.Call) for a in defs)
     if isinstance(it, ast.Call) and call_name(it) == "scan":
         ctx.holds("Z4", "for ... in %s" % norm(it))
+    elif lazy_local:
+        ctx.holds("Z4", "for ... in %s, a local bound to the generator returned by scan()" % norm(it))
     else:
         ctx.violation("Z4", R.parse, "eager-tokens", "the token loop iterates %s: all tokens are produced before the first is handled, so every "
                       "error is reported at the position of the last token (or of the first lexical error)" % norm(it), node=fors[0],
